@@ -5,7 +5,13 @@ import (
 	"errors"
 	"fmt"
 
+	"github.com/protolambda/ztyp/tree"
+
+	"github.com/protolambda/zrnt/eth2/beacon"
+	"github.com/protolambda/zrnt/eth2/beacon/bellatrix"
+	"github.com/protolambda/zrnt/eth2/beacon/capella"
 	"github.com/protolambda/zrnt/eth2/beacon/common"
+	"github.com/protolambda/zrnt/eth2/beacon/deneb"
 )
 
 type BeaconBlockValBackend interface {
@@ -115,9 +121,68 @@ func ValidateBeaconBlock(ctx context.Context, block *common.BeaconBlockEnvelope,
 		return GossipValidatorResult{REJECT, fmt.Errorf("expected proposer %d, but block was proposed by %d", proposer, block.ProposerIndex)}
 	}
 
+	// Conditions the bellatrix and deneb p2p specs add for the block body
+	if res := validateBlockBody(ctx, spec, block, parentRef, ch.Genesis().Time); res.Result != ACCEPT {
+		return res
+	}
+
 	// Only mark once every condition holds: the expected proposer depends on the branch (parent_root/slot),
 	// a refused block must not suppress a later valid block of the same (slot, proposer).
 	blockVal.MarkBlock(block.Slot, block.ProposerIndex)
 
+	return GossipValidatorResult{ACCEPT, nil}
+}
+
+// validateBlockBody checks the gossip conditions on the fork-specific block body:
+//
+// (bellatrix) If the execution is enabled for the block -- i.e. is_execution_enabled(state, block.body):
+// [REJECT] The block's execution payload timestamp is correct with respect to the slot --
+// i.e. execution_payload.timestamp == compute_timestamp_at_slot(state, block.slot).
+//
+// (deneb) [REJECT] The length of KZG commitments is less than or equal to the limitation defined in Consensus Layer --
+// i.e. validate that len(body.signed_beacon_block.message.blob_kzg_commitments) <= MAX_BLOBS_PER_BLOCK
+func validateBlockBody(ctx context.Context, spec *common.Spec, block *common.BeaconBlockEnvelope,
+	parentRef beacon.ChainEntry, genesisTime common.Timestamp) GossipValidatorResult {
+	var payloadTime common.Timestamp
+	switch body := block.Body.(type) {
+	case *bellatrix.BeaconBlockBody:
+		hFn := tree.GetHashFn()
+		if body.ExecutionPayload.HashTreeRoot(spec, hFn) == bellatrix.ExecutionPayloadType(spec).DefaultNode().MerkleRoot(hFn) {
+			// Without payload the execution is only enabled if the merge transition was completed before this block.
+			parentState, err := parentRef.State(ctx)
+			if err != nil {
+				return GossipValidatorResult{IGNORE, fmt.Errorf("cannot get state of parent block %s: %v", block.ParentRoot, err)}
+			}
+			if w, ok := parentState.(interface{ Unwrap() common.BeaconState }); ok {
+				parentState = w.Unwrap()
+			}
+			if execState, ok := parentState.(bellatrix.ExecutionUpgradeBeaconState); ok {
+				if completed, err := execState.IsTransitionCompleted(); err != nil {
+					return GossipValidatorResult{IGNORE, fmt.Errorf("cannot determine if merge transition is completed: %v", err)}
+				} else if completed {
+					return GossipValidatorResult{REJECT, errors.New("block has no execution payload, but the merge transition was completed already")}
+				}
+			}
+			return GossipValidatorResult{ACCEPT, nil}
+		}
+		payloadTime = body.ExecutionPayload.Timestamp
+	case *capella.BeaconBlockBody:
+		payloadTime = body.ExecutionPayload.Timestamp
+	case *deneb.BeaconBlockBody:
+		if count := uint64(len(body.BlobKZGCommitments)); count > uint64(spec.MAX_BLOBS_PER_BLOCK) {
+			return GossipValidatorResult{REJECT, fmt.Errorf("block has %d blob kzg commitments, maximum is %d", count, spec.MAX_BLOBS_PER_BLOCK)}
+		}
+		payloadTime = body.ExecutionPayload.Timestamp
+	default:
+		// no execution payload before bellatrix
+		return GossipValidatorResult{ACCEPT, nil}
+	}
+	expectedTime, err := spec.TimeAtSlot(block.Slot, genesisTime)
+	if err != nil {
+		return GossipValidatorResult{REJECT, fmt.Errorf("slot %d has no timestamp: %v", block.Slot, err)}
+	}
+	if payloadTime != expectedTime {
+		return GossipValidatorResult{REJECT, fmt.Errorf("execution payload timestamp %d does not match the time %d of slot %d", payloadTime, expectedTime, block.Slot)}
+	}
 	return GossipValidatorResult{ACCEPT, nil}
 }
